@@ -5,12 +5,24 @@ package main
 // in-place append onto any sub-slice of it fault immediately (turned into a recoverable panic by
 // debug.SetPanicOnFault). The util transformers get read-only inputs the same way.
 
+// Besides the general document stream the generator is DIRECTED at the code around byte-slice write sites (the
+// inventory of GM.Gen.SliceWrites): heading-id generation with duplicate / already normalised / explicitly given
+// ids, attribute blocks with quoted values and escapes and class/id merges, typographer / linkify / footnote /
+// table / definition-list constructs, sources without a final newline, and every util transformer on inputs that
+// need no change, one change at the very end, at the very start, or in the middle. Every document is converted
+// TWICE from the same read-only buffer and the two outputs are compared (a store that did not fault would show
+// as a different second output).
+
 import (
 	"bytes"
 	"fmt"
 	"runtime/debug"
+	"strings"
 	"syscall"
+	"unsafe"
 
+	"github.com/yuin/goldmark/ast"
+	"github.com/yuin/goldmark/parser"
 	"github.com/yuin/goldmark/renderer/html"
 	"github.com/yuin/goldmark/text"
 	"github.com/yuin/goldmark/util"
@@ -19,22 +31,141 @@ import (
 func init() {
 	register(&Component{
 		Name: "rosource",
-		Rule: "documents (corpus, mutants, generated, adversarial) under lattice configurations, converted from a PROT_READ mapping whose spare capacity is also read-only; util transformers on read-only inputs; non-trivial = non-blank input; distinct = distinct (configuration, input)",
+		Rule: "documents (corpus, mutants, generated, adversarial, and families directed at the byte-slice write sites: heading ids, attribute blocks, extension constructs, no final newline) under lattice configurations, converted twice from a PROT_READ mapping whose spare capacity is also read-only, outputs compared; util / text / id-generator functions on read-only inputs (no change needed, change at the end / start / middle); non-trivial = non-blank input; distinct = distinct (configuration, input)",
 		Gen:  genRO,
 		Impl: implRO,
 		Scope: func(tier string) string {
 			if tier == "thorough" {
-				return "all corpus documents x 8 corner configurations + 100k documents x lattice + 100k util inputs"
+				return "all corpus documents x 8 corner configurations + directed families (enumerated heading-id pairs, attribute item pairs; 40k random directed) + 100k documents x lattice + enumerated util grid (op x base x trigger x position) + 100k random util inputs"
 			}
-			return "all corpus documents x 8 corner configurations + 8k documents x lattice + 10k util inputs"
+			return "all corpus documents x 8 corner configurations + directed families (enumerated heading-id pairs, attribute item pairs; 4k random directed) + 8k documents x lattice + enumerated util grid (op x base x trigger x position) + 10k random util inputs"
 		},
 	})
 }
 
+var roUtilOps = []string{"EscapeHTML", "UnescapePunctuations", "ResolveNumericReferences", "ResolveEntityNames", "URLEscape0", "URLEscape1",
+	"DoFullUnicodeCaseFolding", "ToLinkReference", "ReplaceSpaces", "TrimLeftSpace", "TrimRightSpace", "IsDangerousURL", "ToValidRune",
+	"VisualizeSpaces", "TrimLeft", "TrimRight", "IsBlank", "FindClosure", "FindURLIndex", "FindEmailIndex",
+	"IDsGenerate", "SegmentValue", "SegmentsValue", "CowOps", "ReaderValue"}
+
+// configurations that switch on the code around the write sites
+var roDirectedCfgs = []string{"/i//0", "/ia//0", "/a//0", "tskldfy/ia//0", "tskldFy/ia/x/0", "tskldfy1e/ia/uh/0", "tskl///0", "y///0", "l///0", "f/i//0", "d/ia//0", "t/a//1"}
+
+// roHeadingDocs: every ordered pair of heading texts (already normalised ids, ids that need lower-casing or
+// dashes, the fallback ids, texts that collide with a generated "-1" suffix) in every spelling: two ATX headings,
+// ATX + setext, an explicit {#id} colliding with a later / earlier generated id, three duplicates.
+func roHeadingDocs(f func(cfgs []string, doc string)) {
+	heads := []string{"abc", "a-b", "abc-1", "heading", "id", "x", "A b", "a_b", "é", "a1"}
+	idCfgs := []string{"/i//0", "/ia//0", "tskldfy/ia//0"}
+	for _, h1 := range heads {
+		for _, h2 := range heads {
+			for _, d := range []string{
+				"# " + h1 + "\n\n# " + h2 + "\n",
+				"# " + h1 + "\n# " + h2 + "\n# " + h1 + "\n",
+				h1 + "\n===\n\n" + h2 + "\n---\n",
+				"## " + h1 + " ##\n\n" + h2 + "\n===\n",
+				"# " + h1 + " {#" + h2 + "}\n\n# " + h2 + "\n\n# " + h2 + "\n",
+				"# " + h2 + "\n\n# " + h1 + " {#" + h2 + "}\n\n## " + h2 + "\n",
+				"# " + h1 + " {id=" + h2 + "}\n\n# " + h2 + "\n",
+				"> # " + h1 + "\n\n- # " + h2 + "\n\n# " + h1 + "\n",
+			} {
+				f(idCfgs, d)
+				f(idCfgs, strings.TrimSuffix(d, "\n")) // no final newline
+			}
+		}
+	}
+}
+
+// roAttrDocs: every ordered pair of attribute items (class / id shorthands, class= and id= in several value kinds,
+// quoted values with every escape the string parser knows, an escape at the very end / start of the value)
+func roAttrDocs(f func(cfgs []string, doc string)) {
+	items := []string{".c1", ".c2", "#i1", "#i2", "class=c3", "class=\"q r\"", "id=i3", "id=\"i 4\"", "title=v", "title=\"plain\"", "title=\"a\\\"b\"",
+		"title=\"a\\\\b\"", "title=\"\\\\\"", "title=\"ab\\\\\"", "title=\"\\tab\"", "title=\"x\\ny\\rz\\f\\b\\/\"", "title=\"a\\qb\"", "title=\"\"", "data-x=1.5e3", "lang=[1,\"x\\\"y\"]", "k={a=\"b\\\\c\"}"}
+	attrCfgs := []string{"/a//0", "/ia//0", "tskldfy/ia//0"}
+	for _, a := range items {
+		f(attrCfgs, "# h {"+a+"}\n")
+		f(attrCfgs, "# h {"+a+"}")
+		f(attrCfgs, "h {"+a+"}\n===")
+		for _, b := range items {
+			f(attrCfgs, "# h {"+a+" "+b+"}\n\npara\n")
+			f(attrCfgs, "## h ## {"+a+","+b+"}")
+			f(attrCfgs, "h {"+b+" "+a+" "+b+"}\n---\n\n# h {"+a+"}")
+		}
+	}
+}
+
+var roExtPieces = []string{
+	"\"q\" 'r' -- --- ... << >> it's 'tis \"a 'b' c\"\n", "a--b---c...d\n", "'\\''\n", "\"\n", "www.example.com/a_b(c) http://a.b/?q=1&r=2. https://x.y/z, mail@example.com.\n", "www.a.b/c&amp;d&lt; ftp://f.g/h\n",
+	"text[^1] and[^n] again[^1]\n\n[^1]: note *one*\n    more\n\n[^n]: n\n", "[^a]: x\n[^a]: dup\n\ny[^a][^a]\n", "| a | b |\n|---|:-:|\n| `x\\|y` | \\| |\n| c |\n", "|h|\n|-|\n|\\|\n",
+	"| a \\| b | c |\n|:--|--:|\n| *d* | e\\|f\\|g |\n", "term\n: def *a*\n: def2\n\nterm2\n\n: loose\n\n  para\n", "t1\nt2\n:   d\n", "- [ ] todo\n- [x] done\n", "~~del~~ ~one~ ~~a~b~~\n",
+	"[Foo Bar]: /u \"T\"\n\n[foo\nbar] [FOO BAR][] [x][Foo  Bar]\n", "[ÄÖ]: /u\n\n[äö] [ẞ]\n\n[ẞ]: /s\n", "[a]: </u v> 't\\'x'\n[a]\n", "[l](/u%20a\\) \"t&amp;\\\"\") ![i](<a b> 'c')\n",
+	"&amp; &#65; &#x41; &nosuch; &#0; &copy;x \\& \\* \\\\\n", "<a href=\"x\">raw</a> <!-- c --> <?p?> <b\nc>\n", "```go a&amp;b\ncode\n```\n", "~~~ \\*x\nc\n~~~", "    indented\n\tcode\n", "\tcode after tab\n",
+	"> q\n> \tr\n>\n> - l\n>   m\n", "- a\n\n\tb\n- \tc\n", "1. x\n   ```\n   y\n   ```\n", "a  \nb\\\nc\n", "日本語\n本文 a\n語\n", "*a **b** _c_* `d` ``e`f``\n", "<http://a.b/ä> <m@x.yz>\n",
+	"# Heading *em* `c` [l](/u) {#custom .cls title=\"t\\\"q\"}\n", "Setext *x*\n===\n", "# dup\n# dup\n## dup\n", "#\n# \n", "\xef\xbb\xbf# bom\n",
+}
+
+// roAttrBlock: 1-3 attribute items (own generator: the component must not depend on other components' helpers)
+func roAttrBlock(rng *RNG) string {
+	items := []string{".c1", ".c2", "#i1", "#abc", "class=c3", "class=\"q r\"", "id=abc", "title=\"a\\\"b\"", "title=\"a\\\\\"", "title=\"\\tx\"", "title=plain", "k=[1,\"x\\\\y\"]", "data-x=1.5"}
+	var sb strings.Builder
+	sb.WriteString("{")
+	for i, n := 0, 1+rng.Intn(3); i < n; i++ {
+		if i > 0 {
+			sb.WriteString(rng.Pick([]string{" ", ",", "  "}))
+		}
+		sb.WriteString(rng.Pick(items))
+	}
+	sb.WriteString("}")
+	return sb.String()
+}
+
+// genRODirected: random assemblies of the extension / escape pieces, half of them without a final newline
+func genRODirected(rng *RNG, n int, emit func(Case)) {
+	for i := 0; i < n; i++ {
+		var sb strings.Builder
+		for k, m := 0, 1+rng.Intn(4); k < m; k++ {
+			switch rng.Intn(6) {
+			case 0:
+				sb.WriteString(genBlock(rng, 1))
+			case 1:
+				sb.WriteString("# " + rng.Pick([]string{"abc", "a-b", "x", "Abc", "heading"}) + rng.Pick([]string{"", "", " {#abc}", " " + roAttrBlock(rng)}) + "\n")
+			default:
+				sb.WriteString(rng.Pick(roExtPieces))
+			}
+			sb.WriteString(rng.Pick([]string{"\n", "", "\n\n"}))
+		}
+		d := sb.String()
+		if rng.Bool() {
+			d = strings.TrimRight(d, "\n")
+		}
+		emit(Case{Op: "doc", Args: []string{rng.Pick(roDirectedCfgs), hx([]byte(d))}})
+	}
+}
+
+// roUtilGrid: op x base x trigger x position. The bases need no change under any transformer; a trigger is a
+// shortest input on which some transformer has to produce different bytes.
+func roUtilGrid(emit func(Case)) {
+	bases := []string{"", "abc", "hello-world", "a1b2c3", "path/to/x", "ABC", "Hello World"}
+	triggers := []string{"", "<", "&", "\"", "\\*", "\\", "&#65;", "&#x41;", "&#0;", "&amp;", "&nosuch;", " ", "  ", "\t", "\n", "%", "%zz", "%20", "é", "A", "Z", "Ä", "\xe1\xba\x9e", "\xc3", "[", "]", "`", "http://a.b", "a@b.c", "javascript:", "-", "_", "1"}
+	for _, op := range roUtilOps {
+		for _, b := range bases {
+			for _, t := range triggers {
+				seen := map[string]bool{}
+				for _, in := range []string{b + t, t + b, b + t + b, t + b + t} {
+					if !seen[in] {
+						seen[in] = true
+						emit(Case{Op: "util", Args: []string{op, hx([]byte(in))}})
+					}
+				}
+			}
+		}
+	}
+}
+
 func genRO(tier string, rng *RNG, emit func(Case)) {
-	n, m := 8000, 10000
+	n, m, nd := 8000, 10000, 4000
 	if tier == "thorough" {
-		n, m = 100000, 100000
+		n, m, nd = 100000, 100000, 40000
 	}
 	emit(Case{Op: "selftest", Args: []string{"store", hx([]byte("abc"))}})
 	emit(Case{Op: "selftest", Args: []string{"append", hx([]byte("abc"))}})
@@ -43,17 +174,33 @@ func genRO(tier string, rng *RNG, emit func(Case)) {
 			emit(Case{Op: "doc", Args: []string{c.Name(), hx(d)}})
 		}
 	}
+	// directed families (enumerated)
+	each := func(cfgs []string, doc string) {
+		for _, c := range cfgs {
+			emit(Case{Op: "doc", Args: []string{c, hx([]byte(doc))}})
+		}
+	}
+	roHeadingDocs(each)
+	roAttrDocs(each)
+	for _, p := range roExtPieces {
+		each(roDirectedCfgs, p)
+		each(roDirectedCfgs, strings.TrimRight(p, "\n"))
+	}
+	roUtilGrid(emit)
+	genRODirected(rng, nd, emit)
 	lattice := FullLattice()
 	DocStream(rng, len(CorpusDocs())+n, func(kind string, d []byte) {
 		if kind == "corpus" {
 			return
 		}
+		if rng.Chance(25) { // sources without a final newline
+			d = bytes.TrimRight(d, "\n")
+		}
 		emit(Case{Op: "doc", Args: []string{lattice[rng.Intn(len(lattice))].Name(), hx(d)}})
 	})
-	ops := []string{"EscapeHTML", "UnescapePunctuations", "ResolveNumericReferences", "ResolveEntityNames", "URLEscape0", "URLEscape1", "DoFullUnicodeCaseFolding", "ToLinkReference", "ReplaceSpaces", "TrimLeftSpace", "TrimRightSpace", "IsDangerousURL", "ToValidRune"}
-	alpha := syms("&", "#", ";", "a", "A", "\\", "*", " ", "\t", "%", "4", "g", "<", "\"", "\xc3\x84", "\xc3", "\x80", "amp", "x", "1", "\xe1\xba\x9e")
+	alpha := syms("&", "#", ";", "a", "A", "\\", "*", " ", "\t", "%", "4", "g", "<", "\"", "\xc3\x84", "\xc3", "\x80", "amp", "x", "1", "\xe1\xba\x9e", "-", "Z", "\n")
 	for i := 0; i < m; i++ {
-		emit(Case{Op: "util", Args: []string{ops[i%len(ops)], hx(randString(rng, alpha, 30))}})
+		emit(Case{Op: "util", Args: []string{roUtilOps[i%len(roUtilOps)], hx(randString(rng, alpha, 30))}})
 	}
 }
 
@@ -116,9 +263,23 @@ func implRO(cs Case) (res ImplResult) {
 	defer func() {
 		if r := recover(); r != nil {
 			msg := fmt.Sprint(r)
-			if e, ok := r.(interface{ Addr() uintptr }); ok {
-				msg += fmt.Sprintf(" (fault address %#x)", e.Addr())
+			e, isFault := r.(interface{ Addr() uintptr })
+			if !isFault {
+				// an ordinary panic (index out of range, ...) is not a store into the input: C01's subject, not C12's
+				res.Out = "panic-not-a-fault"
+				res.Stats = append(res.Stats, "non-fault panic (not a C12 matter)")
+				return
 			}
+			lo, hi := uintptr(0), uintptr(0)
+			if cap(src) > 0 {
+				lo = uintptr(unsafe.Pointer(unsafe.SliceData(src)))
+				hi = lo + uintptr(cap(src))
+			}
+			where := "outside the input mapping"
+			if e.Addr() >= lo && e.Addr() < hi {
+				where = fmt.Sprintf("input offset %d (len %d)", e.Addr()-lo, len(src))
+			}
+			msg += fmt.Sprintf(" (fault address %#x, %s)", e.Addr(), where)
 			res.Fails = append(res.Fails, OracleFail{"C12", "write-to-read-only-input", fmt.Sprintf("%s %s on %q: %s", cs.Op, cs.Args[0], orig, msg)})
 		}
 	}()
@@ -129,12 +290,34 @@ func implRO(cs Case) (res ImplResult) {
 	case "doc":
 		c := ParseCfg(cs.Args[0])
 		md := c.Build()
-		var b bytes.Buffer
+		var b, bb bytes.Buffer
 		_ = md.Convert(src, &b)
+		_ = md.Convert(src, &bb) // the same read-only buffer once more: a store that did not fault changes this output
+		if !bytes.Equal(b.Bytes(), bb.Bytes()) {
+			res.Fails = append(res.Fails, OracleFail{"C12", "second-conversion-differs", fmt.Sprintf("doc %s on %q: converting the same buffer again gave %q, first %q", cs.Args[0], orig, roClip(bb.Bytes()), roClip(b.Bytes()))})
+		}
 		doc := md.Parser().Parse(text.NewReader(src))
 		var b2 bytes.Buffer
 		_ = md.Renderer().Render(&b2, src, doc)
+		if !bytes.Equal(b.Bytes(), b2.Bytes()) {
+			res.Fails = append(res.Fails, OracleFail{"C12", "second-conversion-differs", fmt.Sprintf("doc %s on %q: Parse+Render of the same buffer gave %q, Convert %q", cs.Args[0], orig, roClip(b2.Bytes()), roClip(b.Bytes()))})
+		}
 		_ = doc.Text(src)
+		_ = ast.Walk(doc, func(n ast.Node, entering bool) (ast.WalkStatus, error) {
+			if entering {
+				if n.Type() == ast.TypeBlock && n.Lines() != nil {
+					_ = n.Lines().Value(src)
+				}
+				switch x := n.(type) {
+				case *ast.AutoLink:
+					_ = x.URL(src)
+					_ = x.Label(src)
+				case *ast.Text:
+					_ = x.Value(src)
+				}
+			}
+			return ast.WalkContinue, nil
+		})
 	case "util":
 		switch cs.Args[0] {
 		case "EscapeHTML":
@@ -165,10 +348,104 @@ func implRO(cs Case) (res ImplResult) {
 			if len(src) > 0 {
 				util.ToRune(src, len(src)-1)
 			}
+		case "VisualizeSpaces":
+			util.VisualizeSpaces(src)
+		case "TrimLeft":
+			util.TrimLeft(src, []byte(" a<"))
+		case "TrimRight":
+			util.TrimRight(src, []byte(" c;A"))
+		case "IsBlank":
+			util.IsBlank(src)
+		case "FindClosure":
+			util.FindClosure(src, '[', ']', true, true)
+		case "FindURLIndex":
+			util.FindURLIndex(src)
+		case "FindEmailIndex":
+			util.FindEmailIndex(src)
+		case "IDsGenerate":
+			// the heading-id generator on the same (read-only) text several times: later calls must make the id
+			// unique without touching the text; then with a pre-registered id
+			ids := parser.NewContext().IDs()
+			for k := 0; k < 3; k++ {
+				ids.Generate(src, ast.KindHeading)
+			}
+			ids.Put(src)
+			ids.Generate(src, ast.KindHeading)
+			ids.Generate(src[:len(src)/2], ast.KindParagraph)
+		case "SegmentValue":
+			for _, pad := range []int{0, 3} {
+				for _, fn := range []bool{false, true} {
+					for _, stop := range []int{len(src), len(src) / 2} {
+						sg := text.NewSegmentPadding(0, stop, pad)
+						sg.ForceNewline = fn
+						sg.Value(src)
+					}
+				}
+			}
+		case "SegmentsValue":
+			sgs := text.NewSegments()
+			sgs.Append(text.NewSegment(0, len(src)/2))
+			sgs.Append(text.NewSegmentPadding(len(src)/2, len(src), 2))
+			sgs.Value(src)
+			one := text.NewSegments()
+			one.Append(text.NewSegment(0, len(src)))
+			one.Value(src)
+		case "CowOps":
+			for _, seq := range []string{"a", "w", "A", "W", "aw", "wa", "Aa", "aAwW", "S", "s", "sS"} {
+				cob := util.NewCopyOnWriteBuffer(src[:len(src)/2])
+				for _, o := range seq {
+					switch o {
+					case 'a':
+						cob.Append([]byte("xy"))
+					case 'w':
+						cob.Write([]byte("xy"))
+					case 'A':
+						cob.AppendByte('z')
+					case 'W':
+						_ = cob.WriteByte('z')
+					case 's':
+						cob.AppendString("st")
+					case 'S':
+						cob.WriteString("st")
+					}
+				}
+				_ = cob.Bytes()
+			}
+		case "ReaderValue":
+			r := text.NewReader(src)
+			for {
+				line, seg := r.PeekLine()
+				if line == nil {
+					break
+				}
+				_ = r.Value(seg)
+				_ = r.Value(seg.WithStart(seg.Start + (seg.Stop-seg.Start)/2))
+				r.AdvanceLine()
+			}
+			sgs := text.NewSegments()
+			sgs.Append(text.NewSegmentPadding(0, len(src)/2, 1))
+			sgs.Append(text.NewSegmentPadding(len(src)/2, len(src), 3))
+			br := text.NewBlockReader(src, sgs)
+			for {
+				line, seg := br.PeekLine()
+				if line == nil {
+					break
+				}
+				_ = br.Value(seg)
+				br.AdvanceLine()
+			}
+			_ = br.Value(text.NewSegment(0, len(src)))
 		}
 	}
 	if !bytes.Equal(src, orig) {
 		res.Fails = append(res.Fails, OracleFail{"C12", "input-changed", fmt.Sprintf("%s %s: input bytes differ afterwards", cs.Op, cs.Args[0])})
 	}
 	return res
+}
+
+func roClip(b []byte) string {
+	if len(b) > 240 {
+		return string(b[:240]) + "..."
+	}
+	return string(b)
 }
